@@ -237,6 +237,13 @@ func runC19(c *Ctx) {
 					continue
 				}
 				nRet++
+				// the empty range (to < from) has no height to serve
+				if gf.EveryPathHas(r.Block(), func(f Fact) bool {
+					return f.IsCmp && f.Entails(CmpSpec{A: IsParam(1), B: IsParam(2), Rel: GE, D: 1})
+				}) {
+					c.Require("C19.R3 served-segment", "GetBlocksBetweenHeight: empty range", p.InstrPos(r), "under to < from nothing is served", true, "")
+					continue
+				}
 				ok, why := completeRange(gb, gf, r.Results[0])
 				c.Require("C19.R3 served-segment", "GetBlocksBetweenHeight: one block per height", p.InstrPos(r), "the slice returned on success has a block for every height from..to", ok, why)
 			}
